@@ -74,6 +74,19 @@ func NewResponseFilterWriter(filters []ResponseFilter, gz *gzipResponseWriter) *
 // WriteHeader wraps underlying WriteHeader method and
 // compresses if filters are satisfied.
 func (r *ResponseFilterWriter) WriteHeader(code int) {
+	if r.statusCodeWritten {
+		// The filters have decided on the first call. By now the headers
+		// are rewritten (they say Content-Encoding: gzip), so asking the
+		// filters again would switch compression off in mid-response; only
+		// pass the call on.
+		if r.shouldCompress {
+			r.gzipResponseWriter.WriteHeader(code)
+		} else {
+			r.ResponseWriter.WriteHeader(code)
+		}
+		return
+	}
+
 	// Determine if compression should be used or not.
 	r.shouldCompress = true
 	for _, filter := range r.filters {
